@@ -39,7 +39,7 @@ func genMarshal(tier string, seed uint64) {
 }
 
 var umAlphabet = []string{"{-1", "{0", "{1", "{2", "}", "[-1", "[0", "[1", "[2", "]", "0", "s", "s78", "s79", "s7a6564", "s6578", "s616c706861", "s6c6567616379",
-	"s636972636c65", "s72", "s313a32", "s3432", "x", "x0102", "x01020304", "b0", "b1", "i-1", "i0", "i300", "u0", "u7", "u70000", "f3ff8000000000000",
+	"s636972636c65", "s72", "s311f32", "s3432", "x", "x0102", "x01020304", "b0", "b1", "i-1", "i0", "i300", "u0", "u7", "u70000", "f3ff8000000000000",
 	"t100.{-1", "t23.s3432", "t24.x0102", "t7.i1", "t100.0"}
 
 func genUnmarshal(tier string, seed uint64) {
